@@ -130,8 +130,18 @@ func tag(generic bool, lo, up string) string {
 }
 
 // expect renders the value the description denotes in the syntax of T.render (Conv/Spec.lean).
-func (n *node) expect(generic bool, sb *strings.Builder) {
+// A nil slice is `x`/`X` and a nil map `y`/`Y`: values of their own, not the empty containers; with
+// fill they are rendered as the empty containers (what a conversion that makes its result returns).
+func (n *node) expect(generic, fill bool, sb *strings.Builder) {
 	generic = generic || n.g
+	if n.container() && n.nilC && !fill {
+		if n.k == 'a' {
+			sb.WriteString(tag(generic, "x", "X"))
+		} else {
+			sb.WriteString(tag(generic, "y", "Y"))
+		}
+		return
+	}
 	switch n.k {
 	case 'n':
 		sb.WriteString("n")
@@ -156,7 +166,7 @@ func (n *node) expect(generic bool, sb *strings.Builder) {
 			if i > 0 {
 				sb.WriteByte(',')
 			}
-			c.expect(generic, sb)
+			c.expect(generic, fill, sb)
 		}
 		sb.WriteString(tag(generic, "]", ">"))
 	case 'o':
@@ -166,21 +176,22 @@ func (n *node) expect(generic bool, sb *strings.Builder) {
 				sb.WriteByte(',')
 			}
 			sb.WriteString(hx(n.keys[i]) + ":")
-			c.expect(generic, sb)
+			c.expect(generic, fill, sb)
 		}
 		sb.WriteString(tag(generic, "}", ")"))
 	}
 }
 
-func (n *node) expected(generic bool) string {
+func (n *node) expected(generic, fill bool) string {
 	var sb strings.Builder
-	n.expect(generic, &sb)
+	n.expect(generic, fill, &sb)
 	return sb.String()
 }
 
 // renderVal renders a Go value produced by the library in the same syntax; types are exact
-// (int64 vs gen.Int, float64 by bits, string vs gen.String vs json.Number …). A nil slice renders as
-// an empty array, a nil map as an empty object (Spec: formalisation choice).
+// (int64 vs gen.Int, float64 by bits, string vs gen.String vs json.Number …). A nil slice (`x`/`X`)
+// and a nil map (`y`/`Y`) are told apart from the empty ones, as reflect.DeepEqual and the strict
+// writers do.
 func renderVal(v any) string {
 	var sb strings.Builder
 	renderInto(&sb, v, 0)
@@ -216,6 +227,10 @@ func renderInto(sb *strings.Builder, v any, depth int) {
 	case gen.Big:
 		sb.WriteString("G" + hx(string(t)))
 	case []any:
+		if t == nil {
+			sb.WriteByte('x')
+			return
+		}
 		sb.WriteByte('[')
 		for i, x := range t {
 			if i > 0 {
@@ -225,6 +240,10 @@ func renderInto(sb *strings.Builder, v any, depth int) {
 		}
 		sb.WriteByte(']')
 	case gen.Array:
+		if t == nil {
+			sb.WriteByte('X')
+			return
+		}
 		sb.WriteByte('<')
 		for i, x := range t {
 			if i > 0 {
@@ -234,6 +253,10 @@ func renderInto(sb *strings.Builder, v any, depth int) {
 		}
 		sb.WriteByte('>')
 	case map[string]any:
+		if t == nil {
+			sb.WriteByte('y')
+			return
+		}
 		sb.WriteByte('{')
 		for i, k := range sortedKeys(t) {
 			if i > 0 {
@@ -244,6 +267,10 @@ func renderInto(sb *strings.Builder, v any, depth int) {
 		}
 		sb.WriteByte('}')
 	case gen.Object:
+		if t == nil {
+			sb.WriteByte('Y')
+			return
+		}
 		sb.WriteByte('(')
 		for i, k := range sortedKeysG(t) {
 			if i > 0 {
